@@ -274,6 +274,9 @@ structure RunObs where
   t0 : Int
   t1 : Int
   nonPemUnchanged : Bool
+  -- gopki's own hash of every entity's current effective configuration, before and after the run (alias ↦ base64)
+  hashesPre : Option Json := none
+  hashesPost : Option Json := none
 deriving FromJson
 
 structure RunVerdict where
@@ -285,6 +288,7 @@ structure RunVerdict where
   detail : Json := Json.null
   planned : List String := []
   ok : Bool := false            -- the run completed successfully
+  errAgree : Bool := false      -- the model expects exactly the outcome class (success / which error) the run had
   allClauses : List String := []   -- every failing statement clause of this run (the view picks its families)
 
 def b64DecodeStr (s : String) : Option Bytes := V1.goB64Decode s.toUTF8.toList
@@ -360,22 +364,37 @@ def replayRun (tz : Int) (files : List FileJ) (strat : Nat) (fault : Option Faul
   if expectOpen != "" then
     let clean := o.writes.isEmpty && o.nonPemUnchanged
     return { corr := true, spec := clean, clause := if clean then "" else "C18: files written although the hierarchy was refused", branch := "open:" ++ expectOpen,
-             feat := Json.mkObj [("open", expectOpen)] }
+             feat := Json.mkObj [("open", expectOpen)], errAgree := true }
   -- PlanBulkUpdate
   let st := Db.Strategy.ofBits strat
-  let hashOf (c : V1.CertificateContent) : Bytes := (Hash.hashSum c tz).getD []
+  -- the `changed` rule compares the stored hash with gopki's *own* hash of the current effective configuration
+  -- (observed); that the model's hash is the same value is a correspondence, checked separately below
+  let obsHash (js : Option Json) (alias_ : String) : Option Bytes :=
+    (js.bind fun j => (j.getObjValAs? String alias_).toOption).bind b64DecodeStr
+  let modelHash (c : V1.CertificateContent) : Bytes := (Hash.hashSum c tz).getD []
+  let hashOf (c : V1.CertificateContent) : Bytes := (obsHash o.hashesPre c.alias_).getD (modelHash c)
+  let hashMismatch : Option String := (s0.entities.filterMap fun e =>
+    match Db.validateAndMerge s0 e.alias_, obsHash o.hashesPre e.alias_ with
+    | .ok eff, some h => if modelHash eff == h then none else some e.alias_
+    | _, _ => none).head?
   let modelPlan := Db.planBulkUpdate s0 st hashOf o.t0
   let expectPlan := match modelPlan with | .error e => errClassOf e | .ok _ => ""
   if expectPlan != o.planErr then
     return { corr := false, spec := !(expectPlan != "" && o.planErr == ""), clause := s!"C09: PlanBulkUpdate returned '{o.planErr}', model expects '{expectPlan}'", branch := "plan" }
   if expectPlan != "" then
     let clean := o.writes.isEmpty && o.nonPemUnchanged
-    return { corr := true, spec := clean, clause := if clean then "" else "C09: files written although planning failed", branch := "plan:" ++ expectPlan }
+    return { corr := true, spec := clean, clause := if clean then "" else "C09: files written although planning failed", branch := "plan:" ++ expectPlan, errAgree := true }
   let mp := (modelPlan.toOption.getD []).map fun c => (c.alias_, if c.change == .replace then 2 else 1)
   let ip := o.plan.map fun p => (p.alias, p.change)
   -- a plan that differs is a C11 failure; the replay continues with the implementation's plan so that the
   -- consequences for the other properties are still evaluated
-  let planMismatch := mp != ip
+  -- the statement of C11 fixes *which* entities are regenerated, with which kind of change, and that an issuer comes
+  -- before the entities it signs; the order among unrelated entities is the model's BFS order only by correspondence
+  let sortPlan (l : List (String × Nat)) := (l.toArray.qsort (fun a b => a.1 < b.1)).toList
+  let issuerOf (a : String) : String := match s0.find a with | some e => e.content.issuer | none => ""
+  let issuerLater : Bool := (ip.zipIdx.any fun ((a, _), i) => (ip.drop (i + 1)).any fun (b, _) => b == issuerOf a && b != a)
+  let planMismatch := sortPlan mp != sortPlan ip || issuerLater
+  let planOrderOnly := !planMismatch && mp != ip
   -- the abstract machine of the file-level theorems, executed on the abstraction of this directory (default flags only)
   let convPlanned : Option (List String) := if strat == 9 then convPlan s0 tz else none
   let convMismatch := match convPlanned with | some cp => cp != ip.map (·.1) | none => false
@@ -449,9 +468,13 @@ def replayRun (tz : Int) (files : List FileJ) (strat : Nat) (fault : Option Faul
             | none => true
           if !csrKept then checks := checks ++ [⟨pl.alias, false, "C14: certificate request not honoured (public key, request kept, no key written)", Json.null⟩]
           -- the hash line written with the certificate is the hash of the effective configuration
-          let wantHash := ((Hash.hashSum eff tz).map fun h => (String.fromUTF8? ⟨(B64.enc h).toArray⟩).getD "")
+          let modelWant := ((Hash.hashSum eff tz).map fun h => (String.fromUTF8? ⟨(B64.enc h).toArray⟩).getD "")
+          let obsWant : Option String := o.hashesPost.bind fun j => (j.getObjValAs? String pl.alias).toOption
+          let wantHash := match obsWant with | some h => some h | none => modelWant
           if (pemJ.bind (·.hash)) != wantHash then
             checks := checks ++ [⟨pl.alias, false, "C13: stored hash line is not the hash of the effective configuration", Json.mkObj [("want", toJson wantHash)]⟩]
+          if obsWant.isSome && obsWant != modelWant then
+            checks := checks ++ [⟨pl.alias, false, "configuration hash differs from the model's (pre-image or hash function)", Json.mkObj [("model", toJson modelWant)]⟩]
           let subjKeyId := ((pemJ.bind (·.cert)).map (·.subjectKey)).getD 0
           let ci : Db.CertInfo := ⟨der, g.tbs.subject, g.tbs.spki.bits.bytes, g.tbs.notAfter, subjKeyId.toNat⟩
           s := s.update pl.alias fun x => { x with art := { cert := some ci, key := g.key, request := x.art.request } }
@@ -527,9 +550,11 @@ def replayRun (tz : Int) (files : List FileJ) (strat : Nat) (fault : Option Faul
     | none => match badCheck with
       | some b => if b.clause.startsWith "C" then b.clause else ""
       | none => ""
-  let corr := corrErr && (checks.all (·.ok)) && !planMismatch && !convMismatch
+  let corr := corrErr && (checks.all (·.ok)) && !planMismatch && !planOrderOnly && !convMismatch && hashMismatch.isNone
   let clause := if specClause != "" then specClause
     else if convMismatch then s!"abstract machine Conv.run plans {convPlanned.getD []}, the implementation plans {ip.map (·.1)}"
+    else if planOrderOnly then s!"the implementation plans the same entities in another order ({ip.map (·.1)}) than the model's breadth-first order ({mp.map (·.1)})"
+    else if hashMismatch.isSome then s!"{hashMismatch.getD ""}: configuration hash differs from the model's (pre-image or hash function)"
     else if !corrErr then s!"BulkUpdate ended with '{implUpdate}', model expects '{expectUpdate}'"
     else match badCheck with | some b => s!"{b.alias_}: {b.clause}" | none => ""
   let _ := parseIssues
@@ -539,7 +564,7 @@ def replayRun (tz : Int) (files : List FileJ) (strat : Nat) (fault : Option Faul
            detail := Json.mkObj [("generated", toJson generatedAliases), ("detail", match badCheck with | some b => b.detail | none => Json.null),
                                  ("modelPlan", toJson (mp.map (·.1))), ("implPlan", toJson (ip.map (·.1)))],
            feat := Json.mkObj [("entities", ents.length), ("extensions", nExt), ("updateErr", implUpdate), ("strat", strat), ("convCompared", convPlanned.isSome)],
-           planned := planned, ok := implUpdate == "", allClauses := allClauses }
+           planned := planned, ok := implUpdate == "", errAgree := corrErr, allClauses := allClauses }
 
 def ranksOf (j : Json) (k : String) : String → Nat :=
   match j.getObjVal? k with
